@@ -35,8 +35,12 @@ def renamings(params, tier):
         keep = []
         for m in out:
             vals = list(m.values())
+            fixed_points = [k for k, v in m.items() if k == v]
             kind = ("id" if vals == old else "fresh" if not set(vals) & set(old) else
-                    "perm" if set(vals) == set(old) else "chain")
+                    "perm" if set(vals) == set(old) else
+                    # some parameters keep their names while others get fresh ones (first / last parameter kept)
+                    ("partial_first_kept" if fixed_points[0] == old[0] else "partial_later_kept")
+                    if fixed_points and not (set(vals) - set(fixed_points)) & set(old) else "chain")
             keep.append((kind, m))
         pick, seen = [], {}
         for kind, m in keep:
@@ -56,7 +60,9 @@ def renamings(params, tier):
         # 60 injective maps for three parameters: the permutations of the old names, the chains, and a sample of the rest
         perms = [m for m in out if set(m.values()) == set(old)]
         chains = [m for m in out if set(m.values()) & set(old) and set(m.values()) != set(old)]
-        return perms + chains[:12] + [m for m in out if not set(m.values()) & set(old)][:2]
+        partial = [m for m in chains if any(k == v for k, v in m.items())
+                   and not ({v for k, v in m.items() if k != v} & set(old))]
+        return perms + chains[:12] + [m for m in partial if m not in chains[:12]] + [m for m in out if not set(m.values()) & set(old)][:2]
     return out
 
 
